@@ -212,6 +212,27 @@ def rule_relative_by_relpath(ctx):
         raise AnalysisError("translate/translate_back: root-relative return paths not found")
 
 
+def rule_call_args_file(ctx):
+    """R-C20-7: api.call hands `args_file` to two consumers: dumpns(), which resolves it in the caller's directory
+    (and amends it as an output there), and step(inp=..., workdir=...), which resolves it in the called step's
+    working directory.  Both must name the same file: the path given to dumpns() is joined with the working
+    directory that is passed to step()."""
+    fi = ctx.prog.func("api.call")
+    steps = [c for c in calls_in(fi.node) if isinstance(c.func, ast.Name) and c.func.id == "step"]
+    dumps = [c for c in calls_in(fi.node) if isinstance(c.func, ast.Name) and c.func.id == "dumpns"]
+    if not steps or not dumps:
+        raise AnalysisError("api.call: step()/dumpns() calls not found")
+    wd = [ast.unparse(k.value) for c in steps for k in c.keywords if k.arg == "workdir"]
+    if not wd:
+        raise AnalysisError("api.call no longer passes workdir to step()")
+    wd_names = {n.id for w in wd for n in ast.walk(ast.parse(w, mode="eval")) if isinstance(n, ast.Name)}
+    for c in dumps:
+        arg = c.args[0] if c.args else None
+        names = {n.id for n in ast.walk(arg) if isinstance(n, ast.Name)} if arg is not None else set()
+        ctx.check(bool(names & wd_names), fi.fq, f"dumpns({ast.unparse(arg) if arg is not None else ''}, ...) writes the file where the called step will look for it",
+                  f"the args file is written (and amended as an output) relative to the caller's directory, but declared as an input and put on the command line relative to workdir={wd}: with a working directory the two records designate different files and the called step waits for ever for an undeclared input", "joined with the step's workdir", where=ctx.where_of(fi, c))
+
+
 def rule_reserved(ctx):
     """R-C20-3."""
     rc = ctx.prog.func("executor.Executor._run_command")
@@ -275,10 +296,12 @@ RULES = [
     Rule("R-C20-5", "normalise after join", rule_normalise_after_join, min_instances=6),
     Rule("R-C20-3", "reserved variables", rule_reserved, min_instances=5),
     Rule("R-C20-4", "clean tool translates in and back", rule_clean_tool, min_instances=3),
+    Rule("R-C20-7", "api.call writes its args file where the called step reads it", rule_call_args_file, min_instances=1),
     Rule("R-C20-6", "relative paths are computed by relpath, not by cutting a prefix", rule_relative_by_relpath, min_instances=4),
 ]
 
 MUTANTS = [
+    Mutant("args-file-in-callers-directory", "api.py", in_function("call", replace_once("dumpns(Path(su_workdir) / su_args_file, forwarded)", "dumpns(su_args_file, forwarded)")), ("R-C20-7",)),
     Mutant("label-split-at-last-marker", "step.py", in_function("Step.command_and_workdir", lambda s: s.replace('parts = self.label.split("  # wd=", maxsplit=1)', 'parts = self.label.rsplit("  # wd=", maxsplit=1)') if 'self.label.split("  # wd=", maxsplit=1)' in s else None), ("R-C20-3",)),
     Mutant("root-from-environment", "director.py", in_function("serve", replace_once('"STEPUP_ROOT": str(Path.cwd()),', '"STEPUP_ROOT": os.environ.get("STEPUP_ROOT", str(Path.cwd())),')), ("R-C20-3",)),
     Mutant("root-prefix-cut", "path.py", in_function("translate", replace_once("            path = (root / here / path).normpath().relpath(root)\n", "            path = (root / here / path).normpath()\n            path = Path(path[len(root) + 1 :]) if path.startswith(root) and path != root else path.relpath(root)\n")), ("R-C20-6",)),
